@@ -151,3 +151,18 @@ class shared_objects:
 
     def modified(self):
         return [(k, bytes(o)) for k, o in self.pool.items() if bytes(o) != k]
+
+
+class view_objects:
+    """Within the block every byte-string argument of a re-executed call is a read-only `memoryview` of its bytes
+    (a zero-copy slice of a receive buffer is what callers hand over)."""
+
+    def __enter__(self):
+        global unhex
+        self._old = unhex
+        unhex = lambda s: memoryview(_unhex0(s))
+        return self
+
+    def __exit__(self, *a):
+        global unhex
+        unhex = self._old
